@@ -52,7 +52,7 @@ MUTANTS = {
         m("store-after-submit", S, "        self._pending_jobs[(job.eval_hash, job.context_hash)] = job\n\n        # Submit job.\n        if not job.task.script:\n            executor.submit(job)\n        else:\n            executor.submit_script(job)", "        # Submit job.\n        if not job.task.script:\n            executor.submit(job)\n        else:\n            executor.submit_script(job)\n        self._pending_jobs[(job.eval_hash, job.context_hash)] = job", "C06.1"),
         m("finalize-before-resolve", S, "        job.resolve(result)\n        self._finalize_job(job)", "        self._finalize_job(job)\n        job.resolve(result)", "C06.3"),
         m("early-return-before-registration", S, "                promise = Promise.all([args_promise, default_kwargs_promise]).then(args_then)\n", "                return Promise.all([args_promise, default_kwargs_promise]).then(args_then)\n", "C06.4"),
-        m("extra-dedup-skip", S, "        pending_job = self._pending_jobs.get((job.eval_hash, job.context_hash))\n        if pending_job:", "        if job.task.is_async():\n            return None\n        pending_job = self._pending_jobs.get((job.eval_hash, job.context_hash))\n        if pending_job:", "C06.5"),
+        m("extra-dedup-skip", S, "        pending_job = self._pending_jobs.get((job.eval_hash, job.context_hash))\n        if pending_job and job.recording_provenance()", "        if job.task.is_async():\n            return None\n        pending_job = self._pending_jobs.get((job.eval_hash, job.context_hash))\n        if pending_job and job.recording_provenance()", "C06.5"),
         m("register-under-different-key", S, "        self._pending_expr[parent_job][expr.get_hash()] = (promise, expr)", "        self._pending_expr[parent_job][id(expr)] = (promise, expr)", "C06.4"),
     ],
     "C07": [
